@@ -2,6 +2,7 @@ import JmesVerif.Model.Slice
 import JmesVerif.Spec.PySlice
 import JmesVerif.Model.Encode
 import JmesVerif.Spec.GrammarCheck
+import JmesVerif.Model.Interp
 /-!
 Line-protocol driver for the model side of the correspondence streams (DESIGN §4.2).
 `jmdriver <stream>` reads one case per line on stdin and writes one result line per case.
@@ -71,6 +72,37 @@ def streamParse (fields : List String) : String :=
         s!"ok {Enc.astStr a}\tt1={t1Check ts e a}\tdev={d.f3},{d.f4},{d.f5},{d.f16}"
   | _ => "BADCASE"
 
+def rtErrStr : RtErr → String
+  | .invalidSlice => "invalid-slice"
+  | .tooMany e a => s!"too-many exp={e} act={a}"
+  | .notEnough e a => s!"not-enough exp={e} act={a}"
+  | .unknownFunction n => s!"unknown-function name={Enc.hexStr n}"
+  | .invalidType e a p => s!"invalid-type exp={Enc.hexStr e} act={Enc.hexStr a} pos={p}"
+  | .invalidReturnType e a p i => s!"invalid-return-type exp={Enc.hexStr e} act={Enc.hexStr a} pos={p} inv={i}"
+
+def evalErrStr : EvalErr → String
+  | .runtime e off => s!"E runtime {rtErrStr e} off={off}"
+  | .internal _ => "E parse parse off=0 internal"
+  | .panic m => s!"PANIC {m}"
+  | .fuel => "FAULT fuel"
+
+def evalFuel : Nat := 3000
+
+/-- eval: `<expr hex>\t<doc>` → `ok <value>` | `C E parse …` | `E …` -/
+def streamEval (fields : List String) : String :=
+  match fields with
+  | [h, d] =>
+    match Enc.parseVal d with
+    | none => "BADCASE doc"
+    | some doc =>
+      match parseExpr (Enc.unhexStr h).toList with
+      | .error e => "C " ++ compileErrStr e
+      | .ok (_, a) =>
+        match search Registry.default evalFuel a doc with
+        | .ok v => "ok " ++ Enc.valStr v
+        | .error e => evalErrStr e
+  | _ => "BADCASE"
+
 partial def loop (h : IO.FS.Stream) (out : IO.FS.Stream) (f : List String → String) : IO Unit := do
   let line ← h.getLine
   if line.isEmpty then return ()
@@ -84,4 +116,5 @@ def main (args : List String) : IO UInt32 := do
   match args with
   | ["slice"] => loop stdin stdout streamSlice; return 0
   | ["parse"] => loop stdin stdout streamParse; return 0
+  | ["eval"] => loop stdin stdout streamEval; return 0
   | _ => IO.eprintln "usage: jmdriver <stream>"; return 2
